@@ -56,6 +56,10 @@ CONFIGS = [
     {"name": "2conns-2each", "threads": [2, 2], "plan": [9, ["soft", errno.EAGAIN], 120], "bad": None, "conns": 2},
     # a first message of more than 64 KiB towards a peer that does not read for a while: the later ones queue up behind it
     {"name": "big-first-slow-peer", "threads": [4], "plan": [["soft", errno.EAGAIN]] * 8 + [4096, ["soft", errno.EAGAIN], 70000], "bad": None, "big": 0},
+    # a wake-up pipe that holds one / two of the 6-byte tokens (scaled-down stand-in for the 64 KiB pipe and > 10922 pending
+    # wake-ups): the writer has to wait for the I/O loop to drain the pipe, and must not do so holding what the loop needs
+    {"name": "tiny-pipe-1token", "threads": [3, 3], "plan": [64], "bad": None, "pipe": 6},
+    {"name": "tiny-pipe-2tokens", "threads": [4, 1], "plan": [30, ["soft", errno.EAGAIN], 200], "bad": 2, "pipe": 12},
     {"name": "big-second-slow-peer", "threads": [2, 2], "plan": [20, ["soft", errno.EAGAIN], ["soft", errno.EAGAIN], ["soft", errno.EAGAIN], 66000], "bad": None, "big": 1},
 ]
 
@@ -94,6 +98,7 @@ def run_schedule(cfg, decisions=None, rng=None, p=0.0, maxr=0):
                 nm.sctp = types.SimpleNamespace(MSG_UNORDERED=0x1)     # pysctp is not installed here
             for x in ncs:
                 x.socket_proto = w.mods["peer"].PEER_TRANSPORT_SCTP
+        sk.Pipe.CAPACITY = cfg.get("pipe", 65536)
         sock = c.remote.sock
         for step in cfg["plan"]:
             sock.tx_plan.append(tuple(step) if isinstance(step, list) else step)
@@ -188,6 +193,7 @@ def run_schedule(cfg, decisions=None, rng=None, p=0.0, maxr=0):
                 problems.append(("buffer-not-flushed", f"{len(x.write_buffer)} bytes left in the write buffer at quiescence"))
         return ex, problems
     finally:
+        sk.Pipe.CAPACITY = 65536
         w.close()
 
 
@@ -270,7 +276,7 @@ def run(tier, scale=1.0):
         rec.merge(d)
     required = {"deviations:2": 1, "random": 1, "cfg:3threads": 1, "cfg:6msgs": 1, "cfg:2msgs-soft-errors": 1,
                 "cfg:3msgs-one-unencodable": 1, "cfg:2conns-1each": 1, "cfg:2conns-2each": 1, "cfg:3msgs-one-unencodable/none-in-avp-list": 1,
-                "cfg:3msgs-one-unencodable/header-out-of-range": 1, "cfg:sctp-2threads": 1, "cfg:sctp-3msgs": 1}
+                "cfg:3msgs-one-unencodable/header-out-of-range": 1, "cfg:sctp-2threads": 1, "cfg:tiny-pipe-1token": 1, "cfg:tiny-pipe-2tokens": 1, "cfg:sctp-3msgs": 1}
     return finish(rec, tier=tier, level="exploration", rule=RULE, assumptions=ASSUME, t0=t0, exhaustive=True,
                   required_classes=required,
                   extra_cov={"exhaustive_part": "all schedules within the deviation bound for every listed configuration"})
